@@ -558,7 +558,51 @@ def _tree_walk_loops(f):
                 ok = True
         if ok:
             out.append(lp)
+            _WALK_WRITTEN[id(lp)] = written
     return out
+
+
+_WALK_WRITTEN = {}
+
+
+def walk_exemptions(f, lp):
+    """ways through one iteration of a validating walk that neither mark the node just taken from the work list nor leave with
+    an error: such nodes are exempt from the reached-twice test"""
+    from .rules_round3 import _d10_eval
+    written = _WALK_WRITTEN.get(id(lp), set())
+    def is_mark(n):
+        k = n.get("k")
+        if k == "Assign":
+            l = n["l"]
+            if l.get("k") == "Unary" and l.get("op") == "*":
+                return True
+            pl = peel(l)
+            if pl.get("k") == "Index" and hirq.local_of(pl["e"]) in written:
+                return True
+        if k == "MethodCall" and n.get("m") == "insert" and hirq.local_of(n["recv"]) in written:
+            return True
+        if k in ("Ret",):
+            return True
+        if k == "Call" and (callee(n) or "").endswith("::Err"):
+            return True
+        return False
+    body = lp.get("body")
+    # `while let Some(x) = work.pop()`: the iteration proper is the Some arm
+    target = body
+    for m in walk(body):
+        if m.get("k") == "Match" and m.get("src") in ("WhileLetDesugar", "ForLoopDesugar") :
+            arms = [a for a in m["arms"] if any(b.get("k") == "Binding" for b in walk(a["pat"]))]
+            if arms:
+                target = arms[0]["body"]
+            break
+        if m.get("k") == "If" and any(x.get("k") in ("Let", "LetExpr") for x in walk(m.get("cond") or {})):
+            target = m.get("then")
+            break
+    if isinstance(target, dict) and "k" not in target and "stmts" in target:
+        target = {"k": "Block", "b": target}
+    drops = []
+    fall = _d10_eval(target, {False}, drops, 0, is_mark)
+    return len(drops) + (1 if False in fall else 0)
 
 
 def rule_G5(ctx):
@@ -583,6 +627,11 @@ def rule_G5(ctx):
         r.finding(b0["path"], "no-tree-validation", loc(b0["hir"]),
                   "build() never checks that the nodes reachable from the root through get_left()/get_right() are reached once: for a parse result with a shared node or a cycle (parse returns one for `5 + + 3`) the work-stack walk schedules nodes for ever - build does not terminate and memory grows without bound")
     else:
+        for g_, lp_ in found:
+            ex = walk_exemptions(g_, lp_)
+            r.examine((g_["path"], "exemptions"), True, {"fn": g_["path"], "walk": loc(lp_), "iteration_paths_that_neither_mark_nor_fail": ex})
+            if ex:
+                r.finding(g_["path"], "walk-exempts-nodes", loc(lp_), "an iteration of the validating walk at %s can finish without marking the node it took from the work list and without failing (%d way(s)): nodes taken that way are exempt from the reached-twice test - a shared leaf is then built under two parents, the second build state overwrites the first and its reserved jump-table entry is never patched" % (loc(lp_), ex))
         # the walk must come before emission: in build() itself, its statement precedes the first statement that emits
         g, lp = found[0]
         if g is b0:
@@ -600,7 +649,8 @@ def rule_G5(ctx):
     for f in F.fns_in("gfixture::g5::"):
         if f["kind"] == "Closure":
             continue
-        hit = not _tree_walk_loops(f)
+        lps = _tree_walk_loops(f)
+        hit = not lps or any(walk_exemptions(f, lp) for lp in lps)
         if f["name"].startswith("ctl_"):
             r.control(f["name"], hit)
         elif f["name"].startswith("ok_"):
